@@ -16,7 +16,7 @@ from .c07 import blocks_of
 
 ID = "C11"
 GUARD_KERNELS = True
-SHRINK_LISTS = ("ops", "faults")
+SHRINK_LISTS = ("ops", "faults", ("files", "nsamps"))
 SHRINK_MIN = {"nchans": 1, "nbits": 8, "gulp": 1, "nbins": 1, "nints": 1, "nbands": 1, "n": 10}
 C = 299792458.0
 TSAMP = 0.001
@@ -41,7 +41,7 @@ def warm() -> None:
 def generate(rng, tier) -> dict:
     kind = rng.choice(["fil", "fil", "fil", "tim"])
     pulse = rng.random() < 0.12
-    ratio = rng.choice([7.0, 10.0, 10.001, 3.3333, 12.5, round(rng.uniform(2.5, 40.0), 4), rng.randint(3, 20) + rng.choice([0.0, 1e-3, -1e-3])])
+    ratio = rng.choice([7.0, 10.0, 10.001, 3.3333, 12.5, 4.0, 8.0, 16.0, 32.0, round(rng.uniform(2.5, 40.0), 4), rng.randint(3, 20) + rng.choice([0.0, 1e-3, -1e-3])])
     accel = rng.choice([0.0, 0.0, 5.0, -250.0, "big", "big", "big"])
     sc = {"kind": kind, "ratio": ratio, "accel": accel, "faults": []}
     mx = 160 if tier == "quick" else 600
@@ -125,7 +125,7 @@ def nontrivial(sc, ctx) -> bool:
 
 
 # ------------------------------------------------------------------ the cell model
-def cell_model(Xd, N_total, nbins, nints, nbands, tsamp32, period32, accel32):
+def cell_model(Xd, N_total, nbins, nints, nbands, tsamp32, period32, accel32, ctx=None):
     """Xd: (nfold, nchans) DEDISPERSED samples (row t holds x[t+delay_c, c]).  Returns
     (sum cube, count cube) of shape (nints, nbands, nbins) in float64/int64; raises Rejected when
     a decisive quantity is within the margin of a boundary."""
@@ -135,10 +135,28 @@ def cell_model(Xd, N_total, nbins, nints, nbands, tsamp32, period32, accel32):
     tobs = N_total * ts
     tj = t * ts
     phase = nbins * tj * (1 + a * (tj - tobs) / (2 * C)) / p + 0.5
+    if np.any(phase < 0):
+        raise Rejected("negative phase")
     frac = phase - np.floor(phase)
-    if np.any(frac < 1e-4) or np.any(frac > 1 - 1e-4) or np.any(phase < 0):
-        raise Rejected("phase within 1e-4 bin of an edge")
-    pbin = np.floor(phase).astype(np.int64) % nbins
+    near = (frac < 1e-4) | (frac > 1 - 1e-4)
+    pfloor = np.floor(phase).astype(np.int64)
+    if near.any():
+        # Margin rule - except where the documented formula is decided EXACTLY: with accel == 0 the
+        # phase nbins*t*tsamp/period + 1/2 is a rational of the float32 inputs; if it is an integer
+        # (a sample exactly half way between two bin centres, e.g. period = 2^m * tsamp) every IEEE
+        # evaluation of the formula gives that integer and int() keeps it: the sample belongs to the
+        # upper bin.  Anything else near an edge is rejected.
+        if a != 0.0:
+            raise Rejected("phase within 1e-4 bin of an edge")
+        fts, fp = Fraction(ts), Fraction(p)
+        for i in np.nonzero(near)[0]:
+            exact = Fraction(nbins * int(i)) * fts / fp + Fraction(1, 2)
+            if exact.denominator != 1:
+                raise Rejected("phase within 1e-4 bin of an edge")
+            pfloor[i] = int(exact)
+        if ctx is not None:
+            ctx.probe("exact-tie-samples")
+    pbin = pfloor % nbins
     subint = np.array([int(Fraction(int(x) * nints, N_total)) for x in range(nfold)], dtype=np.int64)
     if not np.array_equal(subint, (t // (N_total / nints)).astype(np.int64)):
         raise Rejected("sub-integration index decided by float rounding")
@@ -212,7 +230,7 @@ def execute(sc, ctx) -> None:
         else:
             data = filgen.make_samples(sc["vseed"], n, 1, 8, "small")[:, 0].astype(np.float32)
         hdr = base_header(ctx, 1).new_header({"nchans": 1, "nbits": 32, "tsamp": TSAMP, "nsamples": n, "data_type": "time series"})
-        sums, cnts, pbin, _ = cell_model(data[:, None], n, nbins, nints, 1, np.float32(hdr.tsamp), p32, a32)
+        sums, cnts, pbin, _ = cell_model(data[:, None], n, nbins, nints, 1, np.float32(hdr.tsamp), p32, a32, ctx)
         info = {"api": "TimeSeries.fold", "n": n, "ratio": sc["ratio"], "accel": sc["accel"], "nbins": nbins, "nints": nints}
 
         def mk(clause, detail):
@@ -249,7 +267,7 @@ def execute(sc, ctx) -> None:
         md = T.dedisp_domain(delays, N)
         nfold = N - md
         Xd = np.stack([fs.samples[delays[c] : delays[c] + nfold, c] for c in range(nchans)], axis=1)
-        sums, cnts, pbin, _ = cell_model(Xd, N, nbins, nints, nbands, np.float32(reader.header.tsamp), p32, a32)
+        sums, cnts, pbin, _ = cell_model(Xd, N, nbins, nints, nbands, np.float32(reader.header.tsamp), p32, a32, ctx)
         cubes = []
         for i, op in enumerate(sc["ops"]):
             gulp = op["gulp"]
